@@ -378,6 +378,9 @@ func (c *config) WriteBackendMaps() error {
 					pathsDefaultHostMap.AddHostnamePathMapping(hatypes.DefaultHost, p, path.ID)
 				} else {
 					pathsMap.AddHostnamePathMapping(path.Hostname(), p, path.ID)
+					// requests that reach the backend through an alias of the
+					// hostname need to find the same path ID
+					pathsMap.AddAliasPathMapping(h.Alias, p, path.ID)
 				}
 			}
 			backend.PathsMap = pathsMap
